@@ -65,6 +65,13 @@ func recvIsBuilder(callee *ssa.Function) bool {
 type unknownValue struct{}
 
 // absPtr is an abstract pointer: only its nil-ness and a tag are known.
+// absRunes, absBytes: the runes / bytes of an evaluated string, as a slice value.
+type absRunes struct{ s string }
+type absBytes struct{ s string }
+
+// absList: a list taken from a literal package-level table (nil: the empty list).
+type absList struct{ tv *TVal }
+
 type absPtr struct {
 	tag   string
 	isNil bool
@@ -269,6 +276,35 @@ func (ev *evaluator) eval(fr *evalFrame, v ssa.Value, depth int) (interface{}, b
 		if !ok {
 			return nil, false
 		}
+		if sl, isSl := x.Type().Underlying().(*types.Slice); isSl {
+			// []rune(s), []byte(s) of an evaluated string
+			if str, isS := a.(string); isS {
+				if b, isB := sl.Elem().Underlying().(*types.Basic); isB {
+					switch b.Kind() {
+					case types.Int32:
+						return absRunes{str}, true
+					case types.Uint8:
+						return absBytes{str}, true
+					}
+				}
+			}
+			return nil, false
+		}
+		if isStringType(x.Type()) {
+			switch t := a.(type) {
+			case absRunes:
+				return t.s, true
+			case absBytes:
+				return t.s, true
+			case string:
+				return t, true
+			case int64:
+				if isIntType(x.X.Type()) {
+					return string(rune(t)), true
+				}
+			}
+			return nil, false
+		}
 		switch {
 		case isIntType(x.Type()):
 			switch t := a.(type) {
@@ -462,6 +498,23 @@ func (ev *evaluator) eval(fr *evalFrame, v ssa.Value, depth int) (interface{}, b
 						return int64(str[i]), true
 					}
 					return nil, false
+				}
+				if _, isLd := addr.X.(*ssa.UnOp); !isLd {
+					// an element of a list taken out of a literal table (a map of lists)
+					if lv, ok := ev.eval(fr, addr.X, depth+1); ok {
+						if l, isL := lv.(absList); isL {
+							iv, ok := ev.eval(fr, addr.Index, depth+1)
+							i, isI := iv.(int64)
+							if !ok || !isI {
+								return nil, false
+							}
+							if l.tv == nil || i < 0 || int(i) >= len(l.tv.L) {
+								ev.panicked = true
+								return nil, false
+							}
+							return tvalScalar(l.tv.L[i])
+						}
+					}
 				}
 				if ld, isLd := addr.X.(*ssa.UnOp); isLd && ld.Op == token.MUL {
 					if g, isG := ld.X.(*ssa.Global); isG {
@@ -670,12 +723,41 @@ func (ev *evaluator) eval(fr *evalFrame, v ssa.Value, depth int) (interface{}, b
 	case *ssa.MakeInterface:
 		return ev.eval(fr, x.X, depth+1)
 	case *ssa.Slice:
-		// a substring s[lo:hi] of an evaluated string
+		// a substring s[lo:hi] of an evaluated string (or a sub-slice of its runes or bytes)
 		sv, ok := ev.eval(fr, x.X, depth+1)
+		if rs, isR := sv.(absRunes); ok && isR {
+			runes := []rune(rs.s)
+			lo, hi := int64(0), int64(len(runes))
+			if x.Low != nil {
+				v, ok := ev.eval(fr, x.Low, depth+1)
+				k, isI := v.(int64)
+				if !ok || !isI {
+					return nil, false
+				}
+				lo = k
+			}
+			if x.High != nil {
+				v, ok := ev.eval(fr, x.High, depth+1)
+				k, isI := v.(int64)
+				if !ok || !isI {
+					return nil, false
+				}
+				hi = k
+			}
+			if lo < 0 || hi < lo || hi > int64(len(runes)) {
+				ev.panicked = true
+				return nil, false
+			}
+			return absRunes{string(runes[lo:hi])}, true
+		}
+		if bs, isB := sv.(absBytes); ok && isB {
+			sv = bs.s
+		}
 		str, isS := sv.(string)
 		if !ok || !isS {
 			return nil, false
 		}
+		_, asBytes := x.Type().Underlying().(*types.Slice)
 		lo, hi := int64(0), int64(len(str))
 		if x.Low != nil {
 			v, ok := ev.eval(fr, x.Low, depth+1)
@@ -697,6 +779,9 @@ func (ev *evaluator) eval(fr *evalFrame, v ssa.Value, depth int) (interface{}, b
 			ev.panicked = true // slice bounds out of range
 			return nil, false
 		}
+		if asBytes {
+			return absBytes{str[lo:hi]}, true
+		}
 		return str[lo:hi], true
 	case *ssa.Call:
 		if b, isB := x.Common().Value.(*ssa.Builtin); isB && b.Name() == "len" && len(x.Common().Args) == 1 {
@@ -711,9 +796,32 @@ func (ev *evaluator) eval(fr *evalFrame, v ssa.Value, depth int) (interface{}, b
 			if n, ok := localLiteralLen(x.Common().Args[0]); ok {
 				return n, true
 			}
+			if _, isSl := x.Common().Args[0].Type().Underlying().(*types.Slice); isSl {
+				// a slice parameter of an inlined helper: the caller's literal, or no variadic arguments at all
+				if ofr, ov := fr.origin(x.Common().Args[0]); ofr != fr {
+					if k, isK := ov.(*ssa.Const); isK && k.Value == nil {
+						return int64(0), true
+					}
+					if _, isS := ov.(*ssa.Slice); isS {
+						if n, ok := localLiteralLen(ov); ok {
+							return n, true
+						}
+					}
+				}
+			}
 			if sv, ok := ev.eval(fr, x.Common().Args[0], depth+1); ok {
-				if str, isS := sv.(string); isS {
-					return int64(len(str)), true
+				switch t := sv.(type) {
+				case string:
+					return int64(len(t)), true
+				case absRunes:
+					return int64(len([]rune(t.s))), true
+				case absBytes:
+					return int64(len(t.s)), true
+				case absList:
+					if t.tv == nil {
+						return int64(0), true
+					}
+					return int64(len(t.tv.L)), true
 				}
 			}
 			return nil, false
@@ -1125,6 +1233,8 @@ func tvalScalar(tv *TVal) (interface{}, bool) {
 		return tv.F, true
 	case "bool":
 		return tv.B, true
+	case "list":
+		return absList{tv}, true
 	}
 	return nil, false
 }
@@ -1140,6 +1250,9 @@ func zeroOf(t types.Type) (interface{}, bool) {
 	}
 	if b, ok := t.Underlying().(*types.Basic); ok && b.Kind() == types.Bool {
 		return false, true
+	}
+	if _, ok := t.Underlying().(*types.Slice); ok {
+		return absList{nil}, true
 	}
 	return nil, false
 }
@@ -1561,7 +1674,20 @@ func localLiteralLen(v ssa.Value) (int64, bool) {
 // Elements the literal does not mention hold the zero value.
 func (ev *evaluator) localElem(fr *evalFrame, ia *ssa.IndexAddr, field int, depth int) (interface{}, bool) {
 	al, ok := localArrayOf(ia.X)
-	if !ok || al.Parent() == nil {
+	if !ok {
+		// a slice parameter of an inlined helper: the caller's literal (the variadic arguments of the call)
+		if ofr, ov := fr.origin(ia.X); ofr != fr {
+			if oal, ok := localArrayOf(ov); ok && oal.Parent() != nil {
+				iv, ok := ev.eval(fr, ia.Index, depth+1)
+				if !ok {
+					return nil, false
+				}
+				return ev.localElemAt(ofr, oal, iv, field, depth)
+			}
+		}
+		return nil, false
+	}
+	if al.Parent() == nil {
 		return nil, false
 	}
 	return ev.localElemOf(fr, al, ia.Index, field, depth)
@@ -1578,8 +1704,17 @@ func localArrayValue(v ssa.Value) (*ssa.Alloc, bool) {
 
 func (ev *evaluator) localElemOf(fr *evalFrame, al *ssa.Alloc, index ssa.Value, field int, depth int) (interface{}, bool) {
 	iv, ok := ev.eval(fr, index, depth+1)
+	if !ok {
+		return nil, false
+	}
+	return ev.localElemAt(fr, al, iv, field, depth)
+}
+
+// localElemAt: element iv of the literal al, whose stores are read in frame fr (the frame of the function that
+// builds the literal).
+func (ev *evaluator) localElemAt(fr *evalFrame, al *ssa.Alloc, iv interface{}, field int, depth int) (interface{}, bool) {
 	i, isI := iv.(int64)
-	if !ok || !isI {
+	if !isI {
 		return nil, false
 	}
 	n := al.Type().Underlying().(*types.Pointer).Elem().Underlying().(*types.Array).Len()
